@@ -1,19 +1,79 @@
 import FluteModel.Drv.Orecv
-import FluteModel.Lemmas.DrainObjInst
+import FluteModel.Lemmas.DrainObj
+import FluteModel.Lemmas.ObjRecvTotal
 /-
-  The parameters the `orecv` driver EXECUTES satisfy `DzOK` literally: its decompressor is the table decompressor `idealDz`, which meets
-  the contract (agent path: `idealContract`), and its inner fuel function `idealFuel` is that contract's measure + 1.
+  The parameters the `orecv` driver EXECUTES satisfy `DzOK` literally: its decompressor is the table decompressor `tableDz` (buffered
+  reader, nothing consumed after the end of the stream - ObjRecvIdeal.lean), which meets agent path's contract `DzContract` with the
+  measure "longest content of the table minus the output handed out", and its inner fuel function `tableFuel` is that measure + 1.
+  (The always-draining variant `idealDz` of earlier rounds meets the contract too: agent path, Lemmas/DrainObjInst.lean `idealContract`.)
 -/
 namespace Flute.Drv.Orecv
-open Flute Flute.ObjRecv Flute.ObjSess Flute.Lemmas.DrainObj
+open Flute Flute.FecDec Flute.ObjRecv Flute.ObjSess Flute.Lemmas.DrainObj
+
+theorem find_le_maxContent (ztab : List (Bytes × Bytes × Bool)) (p : Bytes × Bytes × Bool → Bool) (e : Bytes × Bytes × Bool)
+    (h : ztab.find? p = some e) : e.2.1.length ≤ maxContent ztab := by
+  induction ztab with
+  | nil => simp at h
+  | cons a r ih =>
+    simp only [List.find?] at h
+    unfold maxContent
+    split at h
+    · cases h; exact Nat.le_max_left _ _
+    · exact Nat.le_trans (ih h) (Nat.le_max_right _ _)
+
+theorem tableSt_snoc (ztab : List (Bytes × Bytes × Bool)) (cenc : Cenc) (hist : List DzCall) (c : DzCall) :
+    tableSt ztab cenc (hist ++ [c]) = (tableCall ztab cenc (tableSt ztab cenc hist) c).1 := by
+  simp [tableSt, List.foldl_append]
+
+/-- the table decompressor meets the contract, for every table -/
+def tableContract (P : Params) (ztab : List (Bytes × Bytes × Bool)) (h : P.dzRead = tableDz ztab) : DzContract P where
+  mu := fun cenc hist _ => maxContent ztab - (tableSt ztab cenc hist).2.1
+  read_decreases := by
+    intro c hist call out hres hne
+    rw [h] at hres
+    show maxContent ztab - (tableSt ztab c (hist ++ [call])).2.1 < maxContent ztab - (tableSt ztab c hist).2.1
+    rw [tableSt_snoc]
+    unfold tableDz at hres
+    unfold tableCall at hres ⊢
+    by_cases hctor : (call.buflen == 0) = true ∧ (c != .gzip) = true
+    · simp [hctor] at hres
+    · simp only [hctor, if_false] at hres ⊢
+      generalize tableSt ztab c hist = stt at hres ⊢
+      obtain ⟨consumed, produced, left⟩ := stt
+      unfold tableStep at hres ⊢
+      simp only [] at hres ⊢
+      generalize (if left.isEmpty = true then call.avail else []) = fetch at hres ⊢
+      cases hf : ztab.find? (fun e => isPrefix e.1 (consumed ++ (left ++ fetch))) with
+      | none =>
+        simp only [hf] at hres
+        split at hres <;> cases hres
+      | some e =>
+        obtain ⟨cmp, content, bad⟩ := e
+        have hle := find_le_maxContent ztab _ _ hf
+        simp only [hf] at hres ⊢
+        split at hres
+        · cases hres
+        · simp only [DzRes.data.injEq] at hres
+          rename_i hnb
+          simp only [hnb, if_false]
+          subst hres
+          have hlen : 0 < ((content.drop produced).take call.buflen).length := by
+            cases hx : (content.drop produced).take call.buflen with
+            | nil => simp [hx] at hne
+            | cons a b => simp
+          have hl2 := hlen
+          rw [List.length_take, List.length_drop] at hl2
+          show maxContent ztab - (produced + ((content.drop produced).take call.buflen).length) < maxContent ztab - produced
+          have : content.length ≤ maxContent ztab := hle
+          omega
 
 /-- **the driver's own parameters meet `DzOK`**, for every table, every object (TOI, builder-call base) -/
 def drv_params_dzOK (d : DState) (toi base : Nat) : DzOK (d.params.forObj toi base) where
-  C := idealContract (d.params.forObj toi base) d.ztab rfl
+  C := tableContract (d.params.forObj toi base) d.ztab rfl
   fuel := by
     intro w
-    show bwMu _ w < idealFuel d.ztab w
-    unfold bwMu idealFuel
+    show bwMu _ w < tableFuel d.ztab w
+    unfold bwMu tableFuel
     cases w.dz with
     | none => exact Nat.zero_lt_one
     | some dz => exact Nat.lt_succ_self _
